@@ -5,6 +5,7 @@ VERIF = os.path.dirname(os.path.dirname(os.path.abspath(__file__)))
 WHY = {
  'C01-1': 'explicit range check + panicking constructor added in front of the sliced initialiser: residual-hash guard (exit 2)',
  'C01-3': 'the line-split regex is pinned as a source fact of the session unit: a changed pattern is a lost anchor (exit 2), its meaning (one part per LF/CRLF line) is an assumption',
+ 'C02-4': 'first run exit 2 (ghost-insertion anchor quoted the changed loop condition); detected after the anchor was keyed on a prefix - see meta.json recheck_after_strengthening',
  'C17-2': 'which capture group the number parser highlights: regex layer, not under contract',
  'C17-3': 'dynamic_type_tokinizer calls update_tokens with a different end: update_tokens and its callers are listed as not covered',
  'C02-2': 'recursive-descent parser (src/syntax): out of reach of both verifiers (DESIGN.md §10)',
